@@ -693,9 +693,24 @@ func fillHelperShape(f *ssa.Function) (bool, string) {
 			return false, "the fill position is not the sum of the counts returned by Read"
 		}
 	}
-	// the loop goes on only while the buffer is not full and no error was reported
-	full, noErr := false, false
-	var errPhi ssa.Value
+	// the loop goes on only while the buffer is not full ...
+	full := false
+	isNil := func(v ssa.Value) bool { cst, ok := v.(*ssa.Const); return ok && cst.Value == nil }
+	// errLike: the error of the last Read, or a loop-carried copy of it (nil before the first Read)
+	errLike := func(v ssa.Value) bool {
+		if v == errV {
+			return true
+		}
+		if ph, ok := v.(*ssa.Phi); ok {
+			for _, e := range ph.Edges {
+				if !isNil(e) && e != errV && e != ssa.Value(ph) {
+					return false
+				}
+			}
+			return true
+		}
+		return false
+	}
 	for _, ft := range core.FactsAt(read.Block()) {
 		cmp, ok := ft.AsCmp()
 		if !ok {
@@ -708,39 +723,77 @@ func fillHelperShape(f *ssa.Function) (bool, string) {
 				}
 			}
 		}
-		if cmp.Op == token.EQL {
-			if cst, isC := cmp.Y.(*ssa.Const); isC && cst.Value == nil {
-				if ph, isPhi := cmp.X.(*ssa.Phi); isPhi {
-					okEdges := true
-					for _, e := range ph.Edges {
-						if c2, isC2 := e.(*ssa.Const); isC2 && c2.Value == nil {
-							continue
-						}
-						if e != errV {
-							okEdges = false
-						}
-					}
-					if okEdges {
-						noErr, errPhi = true, ph
-					}
-				}
-			}
-		}
 	}
 	if !full {
 		return false, "the fill loop does not go on while the buffer is not full (n < len(buf)): short reads show through as partial windows"
 	}
-	if !noErr {
+	// ... and no error was reported: Read is called again only where the last error is known to be nil - tested before
+	// the call (loop condition) or on every way back to the loop head (return inside the loop)
+	header := nPhi.Block()
+	noErrBefore := false
+	for _, ft := range core.FactsAt(read.Block()) {
+		if cmp, ok := ft.AsCmp(); ok && cmp.Op == token.EQL && isNil(cmp.Y) && errLike(cmp.X) && cmp.X != errV {
+			noErrBefore = true
+		}
+	}
+	noErrBack := true
+	nBack := 0
+	for _, pr := range header.Preds {
+		if !header.Dominates(pr) {
+			continue
+		}
+		nBack++
+		okEdge := false
+		fs := append([]core.Fact{}, core.FactsAt(pr)...)
+		if ifi, ok := pr.Instrs[len(pr.Instrs)-1].(*ssa.If); ok && len(pr.Succs) == 2 {
+			fs = append(fs, core.Fact{Cond: ifi.Cond, Truth: pr.Succs[0] == header, If: ifi})
+		}
+		for _, ft := range fs {
+			if cmp, ok := ft.AsCmp(); ok && cmp.Op == token.EQL && isNil(cmp.Y) && cmp.X == errV {
+				okEdge = true
+			}
+		}
+		if !okEdge {
+			noErrBack = false
+		}
+	}
+	if !noErrBefore && !(noErrBack && nBack > 0) {
 		return false, "the fill loop does not stop at the first error the reader reports"
 	}
+	// what is returned: the bytes filled so far - including those of the last Read - and the reader's own error or nil
 	for _, b := range f.Blocks {
 		ret, ok := b.Instrs[len(b.Instrs)-1].(*ssa.Return)
 		if !ok {
 			continue
 		}
-		if len(ret.Results) != 2 || ret.Results[0] != ssa.Value(nPhi) || ret.Results[1] != errPhi {
-			return false, "the fill function does not return the bytes filled and the reader's own error unchanged"
+		if len(ret.Results) != 2 {
+			return false, "the fill function does not return (count, error)"
+		}
+		cntOK := ret.Results[0] == ssa.Value(nPhi)
+		if bo, isBo := ret.Results[0].(*ssa.BinOp); isBo && bo.Op == token.ADD && ((bo.X == ssa.Value(nPhi) && bo.Y == cnt) || (bo.Y == ssa.Value(nPhi) && bo.X == cnt)) {
+			cntOK = true
+		}
+		if read.Block().Dominates(b) && b != header && ret.Results[0] == ssa.Value(nPhi) {
+			cntOK = false // returned after a Read without its bytes
+		}
+		if !cntOK {
+			return false, "the fill function does not return the number of bytes filled, the bytes of the last Read included (bytes delivered together with an error are dropped)"
+		}
+		if !(isNil(ret.Results[1]) || errLike(ret.Results[1])) {
+			return false, "the fill function does not return the reader's own error unchanged"
+		}
+		if isNil(ret.Results[1]) && read.Block().Dominates(b) && b != header {
+			// a nil error after a Read: only where that Read's error was nil
+			known := false
+			for _, ft := range core.FactsAt(b) {
+				if cmp, ok := ft.AsCmp(); ok && cmp.Op == token.EQL && isNil(cmp.Y) && cmp.X == errV {
+					known = true
+				}
+			}
+			if !known {
+				return false, "the fill function can return a nil error after a Read that failed"
+			}
 		}
 	}
-	return true, "for n < len(buf) && err == nil { m, err = src.Read(buf[n:]); n += m }; return n, err"
+	return true, "Read(buf[n:]) while n < len(buf) and no error was reported; returns the bytes filled and the reader's own error"
 }
